@@ -71,7 +71,7 @@ type duplex struct {
 func newDuplex(seed uint64, n int, maxChunk int) *duplex {
 	d := &duplex{closed: make(chan struct{})}
 	for i := range d.h {
-		d.h[i] = &half{ch: make(chan []byte, 1<<16), cutAt: -1, stallAt: -1, maxChunk: maxChunk,
+		d.h[i] = &half{ch: make(chan []byte, 1<<12), cutAt: -1, stallAt: -1, maxChunk: maxChunk,
 			rnd: simk.NewRand(seed, fmt.Sprintf("chunks-%d-%d", n, i))}
 	}
 	return d
@@ -180,8 +180,14 @@ type endpoint struct {
 	gone     int
 }
 
-func (e *endpoint) collect(ch chan cla.ConvergenceStatus) {
-	for cs := range ch {
+func (e *endpoint) collect(ch chan cla.ConvergenceStatus, done chan struct{}) {
+	for {
+		var cs cla.ConvergenceStatus
+		select {
+		case cs = <-ch:
+		case <-done:
+			return
+		}
 		e.mu.Lock()
 		switch cs.MessageType {
 		case cla.ReceivedBundle:
@@ -201,6 +207,9 @@ func (e *endpoint) collect(ch chan cla.ConvergenceStatus) {
 }
 
 type sessSim struct {
+	handlers []<-chan error
+	allDx []*duplex
+	done  chan struct{}
 	c     *simk.Case
 	res   *simk.Result
 	lg    *simk.Log
@@ -245,6 +254,7 @@ func runSessCase(c *simk.Case) *simk.Result {
 func (s *sessSim) dial(client *Client) error {
 	s.nDial++
 	s.dx = newDuplex(s.seed, s.nDial, s.c.CfgInt("max_chunk", 64))
+	s.allDx = append(s.allDx, s.dx)
 	a, p := &dconn{d: s.dx, out: 0}, &dconn{d: s.dx, out: 1}
 	client.connCloser = a
 	client.messageSwitch = utils.NewMessageSwitchReaderWriter(a, a)
@@ -257,7 +267,7 @@ func (s *sessSim) dial(client *Client) error {
 		err, _ := pc.Start()
 		s.passiveStartErr = err
 		if err == nil {
-			go pe.collect(pc.Channel())
+			go pe.collect(pc.Channel(), s.done)
 		}
 		close(done)
 	}()
@@ -292,7 +302,7 @@ func (s *sessSim) start() bool {
 		s.res.Violate("C11", "session", "session-not-established-on-intact-stream", "active Start: %v", err)
 		return false
 	}
-	go s.ends[0].collect(ac.Channel())
+	go s.ends[0].collect(ac.Channel(), s.done)
 	synctest.Wait()
 	select {
 	case <-s.passiveStarted:
@@ -305,6 +315,11 @@ func (s *sessSim) start() bool {
 		return false
 	}
 	s.up = true
+	for _, e := range s.ends {
+		if e != nil && e.cl.stageHandler != nil {
+			s.handlers = append(s.handlers, e.cl.stageHandler.Error())
+		}
+	}
 	for _, e := range s.ends {
 		e.mu.Lock()
 		e.gone = 0
@@ -335,6 +350,7 @@ func (s *sessSim) harvest() {
 }
 
 func (s *sessSim) body() {
+	s.done = make(chan struct{}) // (made inside the bubble: a select on a channel from outside is not durably blocked)
 	r := simk.NewRand(s.seed, "clock")
 	time.Sleep(time.Duration(366+r.Intn(3000))*24*time.Hour + time.Duration(r.Intn(86400000))*time.Millisecond)
 	t0 := time.Now()
@@ -590,8 +606,23 @@ func (s *sessSim) finish() {
 		synctest.Wait()
 		time.Sleep(time.Second)
 	}
-	if s.dx != nil {
-		s.dx.shut()
+	// nothing of this run stays blocked in the dead bubble (a leaked reader keeps its stream buffers alive)
+	for _, d := range s.allDx {
+		d.shut()
+	}
+	close(s.done)
+	// a stage handler whose client went away first stays blocked on its unread error channel for ever, with the
+	// whole session state (queued megabyte segments) behind it: read what is left so that it can end
+	for _, ec := range s.handlers {
+		ec := ec
+		go func() {
+			for range ec {
+			}
+		}()
+	}
+	for i := 0; i < 3; i++ {
+		synctest.Wait()
+		time.Sleep(20 * time.Second)
 	}
 }
 
